@@ -1,33 +1,47 @@
 // Command lockstep copies a certificate-transparency-go tree to a scratch
-// directory and rewrites the listed package directories so that their mutexes
-// and go statements route through the simulator (DESIGN §16):
+// directory and rewrites the listed package directories so that their mutexes,
+// go statements and (optionally) statement boundaries route through the
+// simulator (DESIGN §16):
 //
 //	sync.Mutex / sync.RWMutex   -> simsync.Mutex / simsync.RWMutex (same method sets)
 //	sync.Once / sync.Pool       -> simsync.Once / simsync.Pool
 //	go f(a, b)                  -> simsync.Go2("file.go:func:line", f, a, b)
+//	for k, v := range m         -> for k, v := range simsync.Sorted(m)      (m a map with ordered keys)
 //	with -yield: simsync.Yield("file.go:func:line") in front of every statement of every function
-//	body (declarations, defer, labels and branch statements excepted)
+//	body (declarations, defer, labels, branch statements and the bodies of loops over maps whose
+//	keys cannot be ordered excepted)
 //
 // and writes the simsync shim package into <dst>/verifhook/simsync. Nothing else
-// changes; with no runtime installed the shim behaves like the originals. The
-// rewrite is purely syntactic (type names and go statements), so it needs no
-// type information and cannot silently skip a lock: every mutex of the listed
-// packages is declared with one of the two type names. A go statement with more
-// than four arguments or a variadic call is left alone and reported.
+// changes; with no runtime installed the shim behaves like the originals (the
+// rewritten packages' own tests pass).
+//
+// Type information (go/types over the export data `go list -export` names) is
+// used for one thing only: telling a range over a map from other range
+// statements. Go leaves map iteration order unspecified, so iterating in key
+// order is a legal refinement - and it is what makes the sequence of yields a
+// goroutine passes a function of the run's seed. The mutex / Once / Pool / go
+// rewrites are purely syntactic, so none can be skipped silently. A go
+// statement with more than four arguments or a variadic call is left alone and
+// reported.
 package main
 
 import (
 	"bytes"
 	_ "embed"
+	"encoding/json"
 	"flag"
 	"fmt"
 	"go/ast"
 	"go/format"
+	"go/importer"
 	"go/parser"
 	"go/printer"
 	"go/token"
+	"go/types"
+	"io"
 	"io/fs"
 	"os"
+	"os/exec"
 	"path/filepath"
 	"strconv"
 	"strings"
@@ -37,57 +51,88 @@ import (
 var shim []byte
 
 var yields bool
-var nYield int
+var nLock, nGo, nYield, nSorted, nUnordered int
 
 const shimPath = "github.com/google/certificate-transparency-go/verifhook/simsync"
+
+func die(format string, a ...any) {
+	fmt.Fprintf(os.Stderr, "lockstep: "+format+"\n", a...)
+	os.Exit(2)
+}
+
+type listed struct {
+	ImportPath string
+	Dir        string
+	Export     string
+	GoFiles    []string
+	Error      *struct{ Err string }
+}
 
 func main() {
 	src := flag.String("src", "/repo", "tree to copy")
 	dst := flag.String("dst", "", "scratch directory (created)")
 	pkgs := flag.String("pkgs", "", "comma-separated package directories to rewrite")
+	tags := flag.String("tags", "verif", "build tags that select the files to rewrite")
+	gocmd := flag.String("go", "go1.26.8", "go command")
 	flag.BoolVar(&yields, "yield", false, "insert statement-boundary yields")
 	flag.Parse()
 	if *dst == "" || *pkgs == "" {
-		fmt.Fprintln(os.Stderr, "usage: lockstep -src tree -dst scratch -pkgs dir,dir")
-		os.Exit(2)
+		die("usage: lockstep -src tree -dst scratch -pkgs dir,dir")
 	}
 	if err := copyTree(*src, *dst); err != nil {
-		fmt.Fprintln(os.Stderr, "copy:", err)
-		os.Exit(2)
+		die("copy: %v", err)
 	}
 	if err := os.MkdirAll(filepath.Join(*dst, "verifhook", "simsync"), 0o755); err != nil {
-		fmt.Fprintln(os.Stderr, err)
-		os.Exit(2)
+		die("%v", err)
 	}
 	if err := os.WriteFile(filepath.Join(*dst, "verifhook", "simsync", "simsync.go"), shim, 0o644); err != nil {
-		fmt.Fprintln(os.Stderr, err)
-		os.Exit(2)
+		die("%v", err)
 	}
-	nLock, nGo := 0, 0
-	for _, p := range strings.Split(*pkgs, ",") {
+	// export data of every dependency, file lists of the packages to rewrite (before anything is rewritten)
+	args := []string{"list", "-e", "-export", "-deps", "-tags", *tags, "-json=ImportPath,Dir,Export,GoFiles,Error"}
+	dirs := strings.Split(*pkgs, ",")
+	for _, p := range dirs {
+		args = append(args, "./"+p)
+	}
+	cmd := exec.Command(*gocmd, args...)
+	cmd.Dir = *dst
+	var stderr bytes.Buffer
+	cmd.Stderr = &stderr
+	out, err := cmd.Output()
+	if err != nil {
+		die("go list: %v\n%s", err, stderr.String())
+	}
+	exports := map[string]string{}
+	byDir := map[string]*listed{}
+	dec := json.NewDecoder(bytes.NewReader(out))
+	for {
+		var l listed
+		if err := dec.Decode(&l); err == io.EOF {
+			break
+		} else if err != nil {
+			die("go list output: %v", err)
+		}
+		if l.Export != "" {
+			exports[l.ImportPath] = l.Export
+		}
+		byDir[l.Dir] = &l
+	}
+	for _, p := range dirs {
 		dir := filepath.Join(*dst, p)
-		ents, err := os.ReadDir(dir)
-		if err != nil {
-			fmt.Fprintln(os.Stderr, err)
-			os.Exit(2)
+		l := byDir[dir]
+		if l == nil {
+			die("package directory %s not listed by go list", p)
 		}
-		for _, e := range ents {
-			if e.IsDir() || !strings.HasSuffix(e.Name(), ".go") || strings.HasSuffix(e.Name(), "_test.go") {
-				continue
-			}
-			l, g, err := rewrite(filepath.Join(dir, e.Name()))
-			if err != nil {
-				fmt.Fprintln(os.Stderr, "rewrite", e.Name()+":", err)
-				os.Exit(2)
-			}
-			nLock += l
-			nGo += g
+		if l.Error != nil {
+			die("package %s: %s", p, l.Error.Err)
+		}
+		if err := rewritePackage(l, exports); err != nil {
+			die("rewrite %s: %v", p, err)
 		}
 	}
-	fmt.Printf("lockstep: %d sync type references, %d go statements rewritten, %d yields inserted in %s\n", nLock, nGo, nYield, *pkgs)
+	fmt.Printf("lockstep: %d sync type references, %d go statements, %d map ranges ordered (%d left unordered), %d yields in %s\n", nLock, nGo, nSorted, nUnordered, nYield, *pkgs)
 	if nLock+nGo+nYield == 0 {
-		fmt.Fprintln(os.Stderr, "lockstep: nothing rewritten - wrong package list?")
-		os.Exit(2)
+		die("nothing rewritten - wrong package list?")
 	}
 }
 
@@ -114,12 +159,54 @@ func copyTree(src, dst string) error {
 	})
 }
 
-func rewrite(path string) (nLock, nGo int, err error) {
+func rewritePackage(l *listed, exports map[string]string) error {
 	fset := token.NewFileSet()
-	f, err := parser.ParseFile(fset, path, nil, parser.ParseComments)
-	if err != nil {
-		return 0, 0, err
+	var files []*ast.File
+	for _, name := range l.GoFiles {
+		f, err := parser.ParseFile(fset, filepath.Join(l.Dir, name), nil, parser.ParseComments)
+		if err != nil {
+			return err
+		}
+		files = append(files, f)
 	}
+	lookup := func(path string) (io.ReadCloser, error) {
+		e, ok := exports[path]
+		if !ok {
+			return nil, fmt.Errorf("no export data for %q", path)
+		}
+		return os.Open(e)
+	}
+	info := &types.Info{Types: map[ast.Expr]types.TypeAndValue{}}
+	var terrs []string
+	conf := types.Config{Importer: importer.ForCompiler(fset, "gc", lookup), Error: func(err error) { terrs = append(terrs, err.Error()) }}
+	if _, err := conf.Check(l.ImportPath, fset, files, info); err != nil {
+		return fmt.Errorf("type check: %s", strings.Join(terrs, "; "))
+	}
+	for i, f := range files {
+		if err := rewriteFile(fset, f, filepath.Join(l.Dir, l.GoFiles[i]), info); err != nil {
+			return fmt.Errorf("%s: %v", l.GoFiles[i], err)
+		}
+	}
+	return nil
+}
+
+// orderedMap: is t a map whose keys can be sorted (string / integer / float kinds)?
+func orderedMap(t types.Type) (isMap, ordered bool) {
+	if t == nil {
+		return false, false
+	}
+	m, ok := t.Underlying().(*types.Map)
+	if !ok {
+		return false, false
+	}
+	b, ok := m.Key().Underlying().(*types.Basic)
+	if !ok {
+		return true, false
+	}
+	return true, b.Info()&(types.IsInteger|types.IsFloat|types.IsString) != 0
+}
+
+func rewriteFile(fset *token.FileSet, f *ast.File, path string, info *types.Info) error {
 	syncName := ""
 	for _, im := range f.Imports {
 		if im.Path.Value == `"sync"` {
@@ -130,10 +217,9 @@ func rewrite(path string) (nLock, nGo int, err error) {
 		}
 	}
 	base := filepath.Base(path)
-	// enclosing function names for go-statement sites
 	var fnStack []string
+	noYield := 0 // > 0 inside the body of a loop over a map that could not be ordered
 	used := false
-	var walk func(n ast.Node) bool
 	site := func(pos token.Pos) string {
 		fn := "?"
 		if len(fnStack) > 0 {
@@ -152,10 +238,13 @@ func rewrite(path string) (nLock, nGo int, err error) {
 				fmt.Fprintf(os.Stderr, "lockstep: %s: go statement left alone (more than 4 arguments or variadic)\n", fset.Position(gs.Pos()))
 				continue
 			}
-			args := append([]ast.Expr{&ast.BasicLit{Kind: token.STRING, Value: strconv.Quote(site(gs.Pos()))}, call.Fun}, call.Args...)
+			at := gs.Pos()
+			args := append([]ast.Expr{&ast.BasicLit{Kind: token.STRING, Value: strconv.Quote(site(at)), ValuePos: at}, call.Fun}, call.Args...)
 			list[i] = &ast.ExprStmt{X: &ast.CallExpr{
-				Fun:  &ast.SelectorExpr{X: ast.NewIdent("simsync"), Sel: ast.NewIdent("Go" + strconv.Itoa(len(call.Args)))},
-				Args: args,
+				Fun:    &ast.SelectorExpr{X: &ast.Ident{Name: "simsync", NamePos: at}, Sel: &ast.Ident{Name: "Go" + strconv.Itoa(len(call.Args)), NamePos: at}},
+				Lparen: at,
+				Args:   args,
+				Rparen: call.Rparen,
 			}}
 			nGo++
 			used = true
@@ -163,7 +252,7 @@ func rewrite(path string) (nLock, nGo int, err error) {
 	}
 	// withYields returns list with a yield in front of every statement that can be preceded by one.
 	withYields := func(list []ast.Stmt) []ast.Stmt {
-		if !yields || len(fnStack) == 0 {
+		if !yields || len(fnStack) == 0 || noYield > 0 {
 			return list
 		}
 		out := make([]ast.Stmt, 0, 2*len(list))
@@ -191,6 +280,7 @@ func rewrite(path string) (nLock, nGo int, err error) {
 		rewriteGo(list)
 		return withYields(list)
 	}
+	var walk func(n ast.Node) bool
 	walk = func(n ast.Node) bool {
 		switch x := n.(type) {
 		case *ast.FuncDecl:
@@ -205,12 +295,6 @@ func rewrite(path string) (nLock, nGo int, err error) {
 			}
 			ast.Inspect(x.Type, walk)
 			return false
-		case *ast.SelectorExpr:
-			if id, ok := x.X.(*ast.Ident); ok && syncName != "" && id.Name == syncName && id.Obj == nil && (x.Sel.Name == "Mutex" || x.Sel.Name == "RWMutex" || x.Sel.Name == "Once" || x.Sel.Name == "Pool") {
-				id.Name = "simsync"
-				nLock++
-				used = true
-			}
 		case *ast.FuncLit:
 			if len(fnStack) == 0 {
 				return true // a literal outside any function (package-level initialiser): types and go statements only
@@ -220,6 +304,44 @@ func rewrite(path string) (nLock, nGo int, err error) {
 			ast.Inspect(x.Body, walk)
 			fnStack = fnStack[:len(fnStack)-1]
 			return false
+		case *ast.RangeStmt:
+			isMap, ordered := false, false
+			if tv, ok := info.Types[x.X]; ok {
+				isMap, ordered = orderedMap(tv.Type)
+			}
+			if x.Key != nil {
+				ast.Inspect(x.Key, walk)
+			}
+			if x.Value != nil {
+				ast.Inspect(x.Value, walk)
+			}
+			ast.Inspect(x.X, walk)
+			switch {
+			case isMap && ordered && (x.Key != nil || x.Value != nil):
+				at := x.X.Pos()
+				x.X = &ast.CallExpr{
+					Fun:    &ast.SelectorExpr{X: &ast.Ident{Name: "simsync", NamePos: at}, Sel: &ast.Ident{Name: "Sorted", NamePos: at}},
+					Lparen: at, Args: []ast.Expr{x.X}, Rparen: x.X.End(),
+				}
+				nSorted++
+				used = true
+				ast.Inspect(x.Body, walk)
+			case isMap && !ordered && (x.Key != nil || x.Value != nil):
+				fmt.Fprintf(os.Stderr, "lockstep: %s: range over a map whose keys cannot be ordered: no yields inside\n", fset.Position(x.Pos()))
+				nUnordered++
+				noYield++
+				ast.Inspect(x.Body, walk)
+				noYield--
+			default:
+				ast.Inspect(x.Body, walk)
+			}
+			return false
+		case *ast.SelectorExpr:
+			if id, ok := x.X.(*ast.Ident); ok && syncName != "" && id.Name == syncName && id.Obj == nil && (x.Sel.Name == "Mutex" || x.Sel.Name == "RWMutex" || x.Sel.Name == "Once" || x.Sel.Name == "Pool") {
+				id.Name = "simsync"
+				nLock++
+				used = true
+			}
 		case *ast.BlockStmt:
 			x.List = rewriteStmts(x.List)
 		case *ast.CaseClause:
@@ -237,7 +359,7 @@ func rewrite(path string) (nLock, nGo int, err error) {
 	}
 	ast.Inspect(f, walk)
 	if !used {
-		return 0, 0, nil
+		return nil
 	}
 	// imports: add the shim, drop "sync" if nothing else uses it
 	syncStillUsed := false
@@ -285,7 +407,7 @@ func rewrite(path string) (nLock, nGo int, err error) {
 			_ = printer.Fprint(&raw, fset, f)
 			_ = os.WriteFile(path+".broken", raw.Bytes(), 0o644)
 		}
-		return 0, 0, err
+		return err
 	}
-	return nLock, nGo, os.WriteFile(path, buf.Bytes(), 0o644)
+	return os.WriteFile(path, buf.Bytes(), 0o644)
 }
